@@ -312,6 +312,33 @@ class ShapeInterp:
                 elems = [Pair(("key", k), lit(v) if isinstance(v, str) else Opaque("const")) for k, v in it.d.items()]
             else:
                 elems = [("key", k) for k in it.keys]
+            # lists that are filled inside an unrolled loop over a constant table keep their exact contents: every
+            # combination of iterations that append is followed as a path of its own
+            exact = {a for a in accs if isinstance(env[a], Fixed) or (isinstance(env[a], Coll) and env[a].kind == "list" and not env[a].elems)}
+            if exact and isinstance(it, (ConstItems, KeySet)):
+                states = [dict(env, **{a: (env[a] if isinstance(env[a], Fixed) else Fixed([])) for a in exact})]
+                for el in elems:
+                    nxt = []
+                    for st0 in states:
+                        e_in = self.bind(st.target, el, st0)
+                        lp = {"cont": []}
+                        res = self.block(fi, st.body, [e_in], outs, lp) + lp["cont"]
+                        for r in res:
+                            e2 = dict(st0)
+                            for a in accs:
+                                e2[a] = r[a] if a in exact else merge(st0[a], r[a])
+                            nxt.append(e2)
+                    # identical states are merged
+                    uniq, seen_ = [], set()
+                    for e2 in nxt:
+                        k_ = tuple((a, repr(getattr(e2[a], "items", e2[a]))) for a in sorted(accs))
+                        if k_ not in seen_:
+                            seen_.add(k_)
+                            uniq.append(e2)
+                    states = uniq
+                    if len(states) > 64:
+                        raise AnalysisError(f"shape interpreter: too many paths through the loop at {fi.loc(st)}")
+                return states
             for el in elems:
                 e_in = self.bind(st.target, el, env)
                 lp = {"cont": []}
@@ -371,6 +398,8 @@ class ShapeInterp:
                 return out
             if isinstance(v, SubSeq):
                 return [(True, {**env, test.id: SubSeq(v.items, True)}), (False, {**env, test.id: SubSeq([], False)})]
+            if isinstance(v, Fixed):
+                return [(bool(v.items), env)]
             if isinstance(v, Str):
                 return [(True, env), (False, {**env, test.id: Str()})]
             if isinstance(v, SymSeq):
